@@ -216,6 +216,15 @@ impl Signer for SecretKey {
                 let secret: SigningKey<NistP521> = secret_key.into();
                 let signing_key = p521::ecdsa::SigningKey::from(secret);
                 let signature: p521::ecdsa::Signature = signing_key.sign_prehash(digest)?;
+                // The p521 crate draws the ECDSA nonce from `OsRng`; under deterministic
+                // simulation draw it from the simulator's RNG instead.
+                #[cfg(rpgp_verif)]
+                let signature: p521::ecdsa::Signature = {
+                    use signature::hazmat::RandomizedPrehashSigner;
+                    let _ = signature;
+                    signing_key
+                        .sign_prehash_with_rng(&mut crate::types::verif_clock::hidden_rng(), digest)?
+                };
                 let (r, s) = signature.split_bytes();
                 (Mpi::from_slice(&r), Mpi::from_slice(&s))
             }
